@@ -22,7 +22,16 @@ POOL = [0, 1, 2, 0x7F, 0x80, 0xFF, 0x100, 0x7FFF, 0x8000, 0xFFFF, 0x10000, 0x7FF
         0xFFFF8000, 0x8000FFFF]
 
 
+EXTREME = [0x80008000, 0x7FFF7FFF, 0x80000000, 0x7FFFFFFF, 0xFFFFFFFF, 0x80808080, 0x7F7F7F7F, 0x8000, 0x00010001]
+
+
 def regs(rng):
+    # a third of the states draw EVERY register from a tiny pool of extreme lane patterns, so that both operands of a
+    # dual multiply / parallel operation sit at the same boundary (e.g. 0x8000 x 0x8000 twice = 2^31) together with an
+    # accumulator of either sign
+    if rng.random() < 0.34:
+        pool = rng.sample(EXTREME, 3)
+        return [rng.choice(pool) for _ in range(15)]
     out = []
     for _ in range(15):
         r = rng.random()
